@@ -16,12 +16,20 @@ def judge(node, step, tr):
     trig = '%s|%s' % (shape, kind if shape != 'rebuild' else '*')
     if shape != 'rebuild' and detail:
         trig += '.' + detail
+    reuse = ''
+    if step[1][0] == 'AddField' and tr.status in ('crash', 'sql-error'):
+        # a field name freed earlier on this path (DeleteField/RenameField)
+        # is used again: its own family of failures (stale index names)
+        from vf.checks import c03
+        if c03.has_name_reuse([tuple(p) for p in node.path] + [step]):
+            reuse = '|name-reuse'
     if tr.status == 'crash':
-        out.append(('C01|crash|%s|%s.%s' % (tr.res.exc_type, kind, detail),
+        out.append(('C01|crash|%s|%s.%s%s' % (tr.res.exc_type, kind, detail,
+                                              reuse),
                     {'error': str(tr.res.exc)[:300]}))
     elif tr.status == 'sql-error':
-        out.append(('C01|sql-error|%s|%s.%s' % (tr.res.exc_type, kind,
-                                                 detail),
+        out.append(('C01|sql-error|%s|%s.%s%s' % (tr.res.exc_type, kind,
+                                                   detail, reuse),
                     {'error': str(tr.res.exc)[:300],
                      'last': str(getattr(tr.res.exc, 'last_sql_statement',
                                          ''))[:300]}))
